@@ -994,3 +994,130 @@ Proof.
     + rewrite app_length. simpl. lia.
     + rewrite Hraw. simpl. rewrite fold_keys. simpl. split; [exact Hk|reflexivity].
 Qed.
+
+(* ================================================================ chunked form *)
+
+(* the chunks cs glued by non-empty blank separators *)
+Inductive wglued : list str -> str -> Prop :=
+| wg_one c : wglued [c] c
+| wg_cons c sep cs s : sep <> [] -> all_space sep = true -> wglued cs s -> wglued (c :: cs) (c ++ sep ++ s).
+
+Lemma wglued_nonempty cs s : wglued cs s -> cs <> [].
+Proof. intros H. destruct H; discriminate. Qed.
+
+Lemma body_text_app a b : body_text (a ++ b) = body_text a ++ body_text b.
+Proof. unfold body_text. rewrite map_app, concat_app. reflexivity. Qed.
+
+Lemma retail_text : forall g w, g <> [] -> body_text (retail g w) = group_text g ++ w.
+Proof.
+  induction g as [|t r IH]; intros w Hne; [congruence|].
+  destruct r as [|t2 r2].
+  - simpl. unfold body_text. simpl. rewrite app_nil_r. reflexivity.
+  - change (retail (t :: t2 :: r2) w) with
+      (mkTok (tk_type t) (tk_lexeme t) (tk_pos t) [] (tk_tail t) :: retail (t2 :: r2) w).
+    rewrite body_text_cons, IH; [|discriminate]. simpl tk_lexeme. simpl tk_tail.
+    change (group_text (t :: t2 :: r2)) with (tk_lexeme t ++ tk_tail t ++ group_text (t2 :: r2)).
+    rewrite <- !app_assoc. reflexivity.
+Qed.
+
+Lemma retail_keys : forall g w, map tok_key (retail g w) = map tok_key g.
+Proof. induction g as [|t r IH]; intros w; simpl; [reflexivity|]. rewrite IH. reflexivity. Qed.
+
+Lemma retail_layout : forall g w, all_space w = true ->
+  Forall (fun t => all_space (tk_tail t) = true) g ->
+  forallb (fun u => is_nil (tk_head u) && all_space (tk_tail u)) (retail g w) = true.
+Proof.
+  induction g as [|t r IH]; intros w Hw Hg; simpl; [reflexivity|].
+  inversion Hg as [|t0 r0 Ht Hr]; subst. rewrite (IH w Hw Hr), andb_true_r.
+  destruct r; assumption.
+Qed.
+
+Lemma retail_seps : forall g w rest rest', g <> [] -> (rest = [] \/ w <> []) ->
+  seps_kept rest rest' = true -> seps_kept (g ++ rest) (retail g w ++ rest') = true.
+Proof.
+  induction g as [|t r IH]; intros w rest rest' Hne Hw Hs; [congruence|].
+  destruct r as [|t2 r2].
+  - simpl. rewrite Hs, andb_true_r. destruct Hw as [E|E]; [subst rest; reflexivity|].
+    destruct (is_nil rest); [reflexivity|]. destruct (is_nil (tk_tail t)); [reflexivity|].
+    destruct w; [congruence|reflexivity].
+  - change ((t :: t2 :: r2) ++ rest) with (t :: (t2 :: r2) ++ rest).
+    change (retail (t :: t2 :: r2) w ++ rest') with
+      (mkTok (tk_type t) (tk_lexeme t) (tk_pos t) [] (tk_tail t) :: (retail (t2 :: r2) w ++ rest')).
+    cbn [seps_kept]. rewrite (IH w rest rest'); [|discriminate|exact Hw|exact Hs].
+    rewrite andb_true_r. simpl tk_tail. destruct (tk_tail t); simpl; rewrite ?orb_true_r; reflexivity.
+Qed.
+
+Lemma seps_kept_nil_l ts' : seps_kept [] ts' = true.
+Proof. reflexivity. Qed.
+
+(* a chunked text is the body of a re-spacing *)
+Lemma wglued_respacing : forall groups p',
+  wglued (map group_text groups) p' ->
+  Forall (fun g => g <> []) groups ->
+  Forall (fun t => all_space (tk_tail t) = true) (concat groups) ->
+  exists ts', p' = body_text ts' /\ map tok_key ts' = map tok_key (concat groups) /\
+              forallb (fun u => is_nil (tk_head u) && all_space (tk_tail u)) ts' = true /\
+              seps_kept (concat groups) ts' = true.
+Proof.
+  intros groups p' H. remember (map group_text groups) as cs eqn:Ecs. revert groups Ecs.
+  induction H as [c|c sep cs s Hne Hsp Hg IH]; intros groups Ecs Hgne Htails.
+  - destruct groups as [|g [|g2 gs]]; try discriminate. simpl in Ecs. injection Ecs as Ec. subst c.
+    simpl in Htails |- *. rewrite app_nil_r in *. inversion Hgne as [|g0 l0 Hg0 _]; subst.
+    exists (retail g []). repeat split.
+    + rewrite retail_text, app_nil_r; [reflexivity|exact Hg0].
+    + apply retail_keys.
+    + apply retail_layout; [reflexivity|exact Htails].
+    + rewrite <- (app_nil_r g) at 1. rewrite <- (app_nil_r (retail g [])).
+      apply retail_seps; [exact Hg0|left; reflexivity|reflexivity].
+  - destruct groups as [|g gs]; [discriminate|]. simpl in Ecs. injection Ecs as Ec Ecs'. subst c.
+    inversion Hgne as [|g0 l0 Hg0 Hgs]; subst. simpl in Htails. apply Forall_app in Htails.
+    destruct Htails as [Ht1 Ht2].
+    destruct (IH gs eq_refl Hgs Ht2) as [ts1 [E1 [E2 [E3 E4]]]].
+    exists (retail g sep ++ ts1). simpl. repeat split.
+    + rewrite body_text_app, retail_text, <- app_assoc, E1; [reflexivity|exact Hg0].
+    + rewrite !map_app, retail_keys, E2. reflexivity.
+    + rewrite forallb_app, E3, andb_true_r. apply retail_layout; assumption.
+    + apply retail_seps; [exact Hg0|right; exact Hne|exact E4].
+Qed.
+
+Lemma tchain_tails : forall rp s ts, tchain rp s ts -> Forall (fun t => all_space (tk_tail t) = true) ts.
+Proof. induction 1; constructor; assumption. Qed.
+
+Lemma set_head_body h ts : body_text (set_head h ts) = body_text ts.
+Proof. destruct ts; reflexivity. Qed.
+
+(* L-respace, chunked form: the tokens of s cut into groups, the chunks glued by non-empty blank
+   separators after a blank head *)
+Theorem L_respace_glued_main s toks groups h p' :
+  lex s = (toks, None) -> toks <> [] -> toks = concat groups -> Forall (fun g => g <> []) groups ->
+  all_space h = true -> wglued (map group_text groups) p' ->
+  map tok_key (fst (lex (h ++ p'))) = map tok_key toks /\ snd (lex (h ++ p')) = None.
+Proof.
+  intros Hlex Hne Hcat Hg Hh Hgl.
+  destruct (lex_tchain _ _ Hlex Hne) as [h0 [s1 [_ Hch]]].
+  pose proof (tchain_tails _ _ _ Hch) as Htails. rewrite Hcat in Htails.
+  destruct (wglued_respacing _ _ Hgl Hg Htails) as [ts' [E1 [E2 [E3 E4]]]].
+  rewrite <- Hcat in E2, E4.
+  assert (Hts : ts' <> []) by (destruct ts'; [destruct toks; [congruence|discriminate]|discriminate]).
+  destruct ts' as [|t1 r1]; [congruence|].
+  assert (Er : h ++ p' = render (set_head h (t1 :: r1))).
+  { subst p'. simpl in E3. apply andb_true_iff in E3. destruct E3 as [E3a E3b].
+    destruct (render_body _ E3b) as [Eren _].
+    change (render (set_head h (t1 :: r1))) with
+      (tok_text (mkTok (tk_type t1) (tk_lexeme t1) (tk_pos t1) h (tk_tail t1)) ++ render r1).
+    rewrite Eren, body_text_cons. unfold tok_text. simpl. rewrite <- !app_assoc. reflexivity. }
+  rewrite Er. apply (L_respace_main s toks _ Hlex Hne).
+  - exact E2.
+  - simpl in E3 |- *. apply andb_true_iff in E3. destruct E3 as [E3a E3b].
+    apply andb_true_iff in E3a. destruct E3a as [_ E3a]. rewrite Hh, E3a, E3b. reflexivity.
+  - destruct toks as [|t0 r0]; [congruence|]. simpl in E4 |- *. exact E4.
+Qed.
+
+Lemma wglued_join sep : sep <> [] -> all_space sep = true ->
+  forall cs, cs <> [] -> wglued cs (join sep cs).
+Proof.
+  intros Hne Hsp. induction cs as [|c r IH]; intros Hc; [congruence|].
+  destruct r as [|c2 r2]; [apply wg_one|].
+  change (join sep (c :: c2 :: r2)) with (c ++ sep ++ join sep (c2 :: r2)).
+  apply wg_cons; [exact Hne|exact Hsp|]. apply IH. discriminate.
+Qed.
